@@ -189,6 +189,7 @@ def runMonitor (ops obs : Array String) : IO Unit := do
     out.putStrLn s!"mon C17 FAIL clause=stream-length ops={ops.size} obs={obs.size}"
     return
   let mut pre : State := {}
+  let mut hi : Spec.C17.Hi := []
   let mut fails := 0
   let mut steps := 0
   for i in [0:ops.size] do
@@ -197,7 +198,7 @@ def runMonitor (ops obs : Array String) : IO Unit := do
     match t with
     | "oracle" :: "reset" :: _ =>
       match parseState o with
-      | some s => pre := s
+      | some s => pre := s; hi := []
       | none => out.putStrLn s!"mon C17 FAIL clause=obs-parse line={i+1}"; fails := fails + 1
     | "oracle" :: "agg" :: r =>
       steps := steps + 1
@@ -234,6 +235,10 @@ def runMonitor (ops obs : Array String) : IO Unit := do
         match op' with
         | none => out.putStrLn s!"mon C17 FAIL clause=obs-cbs line={i+1}"; fails := fails + 1
         | some op' =>
+          -- guard of the value clauses: batch counters reported by the service module grow per feed
+          match Spec.C17.guardOp hi op' with
+          | some hi' => hi := hi'
+          | none => out.putStrLn s!"mon C17 FAIL clause=batch-counter line={i+1}"; fails := fails + 1
           for v in Spec.C17.stepVerdicts pre op' accepted post do
             match showVerdict (i+1) v with
             | some m => out.putStrLn m; fails := fails + 1
